@@ -35,11 +35,17 @@ from .common import Ctx, to_wire, wire_list
 
 META = {
     "rule": "every case is generated from its own 40-bit sub-seed drawn from ctx.rng (stored in the case, so it replays "
-            "exactly). clock: kind x 8-16 events x 9 ways of writing a time; lin: kind (lti, ltv indexed by _t, ltv indexed "
-            "by _t % T) x dims 1..4 x 12 batch layouts x optional constants x dtype, 3-8 events with feedback; nls: "
-            "nx 1..3, nu 1..2, trees of depth <= 4 with shared sub-trees, 4-10 events; bmv: all three helpers on broadcast "
-            "batches. A case is non-trivial when it contains at least one completed call or read, and distinct by "
-            "(stream, kind, dims, batch layout, dtype, event-kind sequence, tree operator multiset).",
+            "exactly). clock (600 quick / 8000 thorough histories): kind lti|ltv|nls x 8-16 events (call, raising call, direct "
+            "forward/state_transition/observation, reset, systime=, 1-dim tensor (raises), set_refpoint) x 12 ways of writing a "
+            "time (python int/float/negative float/bool/huge int, 0-dim int64/int32/float64/float32 tensors, ladder "
+            "-3..40,1000); lin (700 / 12000): lti | ltv indexed by _t | ltv indexed by _t % T, dims 1..4, 9 batch layouts with "
+            "independently broadcast sub-batches of A,B,C,D,c1,c2,x,u, 0-dim states, optional constants, float64/float32, "
+            "magnitudes 1e-3..1e3, 3-8 events with feedback roll-outs, wrong dimensions, slice index out of range; nls "
+            "(650 / 12000): nx 1..3, nu 1..2, trees of depth <= 4 (+ - * neg sin cos pow 0..3, shared sub-trees, time variable), "
+            "4-10 events (call, set_refpoint with x,u None or given and t None | sys.systime | fresh tensor, reset, systime=, "
+            "read); bmv (300 / 6000): bmv, bvv, bvmv on broadcast batches, LieTensor argument, out=. A case is non-trivial "
+            "when it contains a completed call or a read, and distinct by (stream, kind, dims, batch layout, dtype, "
+            "event-kind sequence, tree operator multiset).",
     "trusted": ["torch.autograd.functional.jacobian / autograd of built-in ops (contract: returns the derivative of the "
                 "traced program; the model uses the symbolic derivative proved correct in symdiff_correct)",
                 "torch.matmul, indexing, copy_/fill_ into an int64 buffer (external kernels)",
@@ -320,6 +326,11 @@ def gen_vals(rng, n, dtype):
             v = rng.uniform(-2.5, 2.5)
         out.append(float(torch.tensor(v, dtype=DT(dtype)).item()))
     return out
+
+
+def pub(case):
+    """the replayable part of a case (private working keys removed)"""
+    return {k: v for k, v in case.items() if not k.startswith("_")}
 
 
 def sig_events(evs):
@@ -675,7 +686,7 @@ def check_lin(ctx: Ctx, case):
             except Exception as ex:
                 out, raised = None, ex
             if not torch.equal(x, xk) or not torch.equal(u, uk):
-                ctx.fail({**case, "at": i}, "mutation: a call modified the caller's state/input tensor")
+                ctx.fail({**pub(case), "at": i}, "mutation: a call modified the caller's state/input tensor")
                 ok = False
             xb = x if x.ndim else x.reshape(1)
             ub = u if u.ndim else u.reshape(1)
@@ -691,14 +702,14 @@ def check_lin(ctx: Ctx, case):
             if raised is not None:
                 impl.append((int(sys_.systime), "R"))
                 if not expect_raise:
-                    ctx.fail({**case, "at": i}, f"lin-raises: {case['sys']} call raised {type(raised).__name__}: {str(raised)[:100]} at clock {clock}")
+                    ctx.fail({**pub(case), "at": i}, f"lin-raises: {case['sys']} call raised {type(raised).__name__}: {str(raised)[:100]} at clock {clock}")
                     ok = False
             else:
                 xn, y = out
                 magrec = {}
                 impl.append((int(sys_.systime), (xn, y, magrec)))
                 if expect_raise:
-                    ctx.fail({**case, "at": i}, f"lin-no-raise: call at clock {clock} (slice {sl}, event {ev}) returned instead of raising")
+                    ctx.fail({**pub(case), "at": i}, f"lin-no-raise: call at clock {clock} (slice {sl}, event {ev}) returned instead of raising")
                     ok = False
                 else:
                     # oracle: exact rational equations per batch item, time slice from the clock law
@@ -707,7 +718,7 @@ def check_lin(ctx: Ctx, case):
                     bsy = tuple(torch.broadcast_shapes(tuple(case["bC"]), tuple(case["bD"]), tuple(case["bc2"]) if c2 is not None else (),
                                                        tuple(xb.shape[:-1]), tuple(ub.shape[:-1])))
                     if not (isinstance(xn, torch.Tensor) and isinstance(y, torch.Tensor)) or tuple(xn.shape) != bsx + (n,) or tuple(y.shape) != bsy + (p,):
-                        ctx.fail({**case, "at": i}, f"lin-shape: call returned shapes {tuple(getattr(xn, 'shape', ()))}, {tuple(getattr(y, 'shape', ()))}; "
+                        ctx.fail({**pub(case), "at": i}, f"lin-shape: call returned shapes {tuple(getattr(xn, 'shape', ()))}, {tuple(getattr(y, 'shape', ()))}; "
                                                     f"the equations with broadcasting give {bsx + (n,)}, {bsy + (p,)}")
                         case["_lines"], case["_impl"] = [], []
                         return False
@@ -726,13 +737,13 @@ def check_lin(ctx: Ctx, case):
                             try:
                                 gi = bitem(got, got.ndim - 1, full, idx).double().tolist()
                             except Exception:
-                                ctx.fail({**case, "at": i}, f"lin-shape: {nm} of shape {tuple(got.shape)} does not broadcast to batch {full}")
+                                ctx.fail({**pub(case), "at": i}, f"lin-shape: {nm} of shape {tuple(got.shape)} does not broadcast to batch {full}")
                                 ok = False
                                 continue
                             for r_, (w, mg, gv) in enumerate(zip(want, mags, gi)):
                                 tol = 64 * eps * mg + 1e-300
                                 if not (abs(Fraction(gv) - w) <= tol):
-                                    ctx.fail({**case, "at": i, "item": list(idx)},
+                                    ctx.fail({**pub(case), "at": i, "item": list(idx)},
                                              f"lin-eq: {nm}[{r_}] = {gv!r} but {'A' if nm != 'y' else 'C'}_t x + {'B' if nm != 'y' else 'D'}_t u + c = {float(w)!r} "
                                              f"(clock {clock}, slice {sl}, |diff| {float(abs(Fraction(gv) - w)):.3e} > {tol:.3e})")
                                     ok = False
@@ -766,11 +777,11 @@ def check_lin(ctx: Ctx, case):
                     else:
                         r = sys_.set_refpoint(t=None if e["t"] is None else mk_time(e["t"]))
                         if r is not sys_:
-                            ctx.fail({**case, "at": i}, "refpoint-return: set_refpoint does not return the system")
+                            ctx.fail({**pub(case), "at": i}, "refpoint-return: set_refpoint does not return the system")
                         if ltv:
                             clock_expect = e["t"]["v"]
             except Exception as ex:
-                ctx.fail({**case, "at": i}, f"clock-raises: {ev} raised {type(ex).__name__}: {str(ex)[:100]}")
+                ctx.fail({**pub(case), "at": i}, f"clock-raises: {ev} raised {type(ex).__name__}: {str(ex)[:100]}")
                 ok = False
                 clock_expect = clock
             for idx in idxs:
@@ -778,12 +789,12 @@ def check_lin(ctx: Ctx, case):
             impl.append((int(sys_.systime), None))
         now = int(sys_.systime)
         if now != clock_expect:
-            ctx.fail({**case, "at": i}, f"clock-law: after event {i} ({ev}) systime={now}, the law gives {clock_expect}")
+            ctx.fail({**pub(case), "at": i}, f"clock-law: after event {i} ({ev}) systime={now}, the law gives {clock_expect}")
             ok = False
         clock = now
     for t_, k_ in zip((A, B, C, D, c1, c2), keep):
         if t_ is not None and not torch.equal(t_, k_):
-            ctx.fail(case, "mutation: a system matrix was modified by the calls")
+            ctx.fail(pub(case), "mutation: a system matrix was modified by the calls")
             ok = False
     case["_lines"] = [(idx, hdr + " " + data[idx] + " " + " ".join(ev_tokens[idx])) for idx in idxs]
     case["_impl"] = impl
@@ -836,20 +847,20 @@ def run_lin(ctx: Ctx, cases):
         n, p, full = case["n"], case["p"], case["full"]
         for i, ((ci, oi), (cm, om)) in enumerate(zip(impl, model)):
             if ci != cm:
-                ctx.disagree("lin.clock", {**case, "at": i}, f"{case['sys']}: after event {i} implementation systime {ci}, model {cm}")
+                ctx.disagree("lin.clock", {**pub(case), "at": i}, f"{case['sys']}: after event {i} implementation systime {ci}, model {cm}")
                 break
             if isinstance(oi, tuple) != isinstance(om, list) or (oi == "R") != (om == "R"):
-                ctx.disagree("lin.outcome", {**case, "at": i}, f"{case['sys']}: event {i} implementation {'returns' if isinstance(oi, tuple) else oi}, model {'returns' if isinstance(om, list) else om}")
+                ctx.disagree("lin.outcome", {**pub(case), "at": i}, f"{case['sys']}: event {i} implementation {'returns' if isinstance(oi, tuple) else oi}, model {'returns' if isinstance(om, list) else om}")
                 break
             if isinstance(oi, tuple):
                 xn, y, magrec = oi
                 try:
                     got = bitem(xn, xn.ndim - 1, full, idx).double().tolist() + bitem(y, y.ndim - 1, full, idx).double().tolist()
                 except Exception:
-                    ctx.disagree("lin.shape", {**case, "at": i}, f"output shapes {tuple(xn.shape)} {tuple(y.shape)} do not broadcast to {full}")
+                    ctx.disagree("lin.shape", {**pub(case), "at": i}, f"output shapes {tuple(xn.shape)} {tuple(y.shape)} do not broadcast to {full}")
                     break
                 if len(got) != len(om):
-                    ctx.disagree("lin.shape", {**case, "at": i}, f"output has {len(got)} entries, model {len(om)}")
+                    ctx.disagree("lin.shape", {**pub(case), "at": i}, f"output has {len(got)} entries, model {len(om)}")
                     break
                 mags = magrec.get(idx, [])
                 if len(mags) != len(om):
@@ -857,7 +868,7 @@ def run_lin(ctx: Ctx, cases):
                 bad = [(k_, gv, float(mv)) for k_, (gv, mv, mg) in enumerate(zip(got, om, mags))
                        if abs(Fraction(gv) - mv) > 64 * eps * mg + 1e-300]
                 if bad:
-                    ctx.disagree("lin.value", {**case, "at": i, "item": list(idx)}, f"{case['sys']}: event {i} output entry {bad[0][0]}: implementation {bad[0][1]!r} model {bad[0][2]!r}")
+                    ctx.disagree("lin.value", {**pub(case), "at": i, "item": list(idx)}, f"{case['sys']}: event {i} output entry {bad[0][0]}: implementation {bad[0][1]!r} model {bad[0][2]!r}")
                     break
 
 
@@ -1363,21 +1374,21 @@ def check_bmv(ctx: Ctx, case):
         else:
             y = P.bvmv(*args)
     except Exception as ex:
-        ctx.fail(case, f"bmv-raises: {fn} raised {type(ex).__name__}: {str(ex)[:100]}")
+        ctx.fail(pub(case), f"bmv-raises: {fn} raised {type(ex).__name__}: {str(ex)[:100]}")
         return False
     ok = True
     for a, k_ in zip(raw, keep):
         if not torch.equal(a, k_):
-            ctx.fail(case, f"mutation: {fn} modified an argument")
+            ctx.fail(pub(case), f"mutation: {fn} modified an argument")
             ok = False
     if type(y) is not torch.Tensor:
-        ctx.fail(case, f"bmv-type: {fn} returned {type(y).__name__}")
+        ctx.fail(pub(case), f"bmv-type: {fn} returned {type(y).__name__}")
         return False
     bs = torch.broadcast_shapes(*[tuple(b) for b in ([case["b1"], case["b2"]] + ([case["b3"]] if fn == "bvmv" else []))])
     core = {"bmv": (n,), "bvv": (n, m), "bvmv": ()}[fn]
     want_shape = tuple(bs) + core if (fn != "bvmv" or bs) else (1,)
     if tuple(y.shape) != want_shape:
-        ctx.fail(case, f"bmv-shape: {fn} returned shape {tuple(y.shape)}, expected {want_shape}")
+        ctx.fail(pub(case), f"bmv-shape: {fn} returned shape {tuple(y.shape)}, expected {want_shape}")
         return False
     idxs = [()] if not bs else [tuple(i) for i in torch.cartesian_prod(*[torch.arange(s) for s in bs]).reshape(-1, len(bs)).tolist()]
     if len(idxs) > 3:
@@ -1406,7 +1417,7 @@ def check_bmv(ctx: Ctx, case):
         for q_, (w, mg, gv) in enumerate(zip(want, mags, gi)):
             tol = 64 * eps * mg + 1e-300
             if not (abs(Fraction(gv) - w) <= tol):
-                ctx.fail({**case, "item": list(idx)}, f"bmv-eq: {fn} entry {q_} = {gv!r}, exact value {float(w)!r} (tol {tol:.2e})")
+                ctx.fail({**pub(case), "item": list(idx)}, f"bmv-eq: {fn} entry {q_} = {gv!r}, exact value {float(w)!r} (tol {tol:.2e})")
                 ok = False
         case.setdefault("_got", []).append((gi, mags))
     case["_lines"] = lines
@@ -1448,10 +1459,10 @@ def run(ctx: Ctx):
     torch.set_num_threads(2)
     q = ctx.quick
     seeds = lambda n: [rng.randrange(1 << 40) for _ in range(n)]
-    run_clock(ctx, [gen_clock_case(s, q) for s in seeds(ctx.pick(600, 6000))])
-    run_lin(ctx, [gen_lin_case(s, q) for s in seeds(ctx.pick(700, 7000))])
-    run_bmv(ctx, [gen_bmv_case(s, q) for s in seeds(ctx.pick(300, 4000))])
-    run_nls(ctx, [gen_nls_case(s, q) for s in seeds(ctx.pick(650, 7000))], ctx.pick(700, 8000))
+    run_clock(ctx, [gen_clock_case(s, q) for s in seeds(ctx.pick(600, 8000))])
+    run_lin(ctx, [gen_lin_case(s, q) for s in seeds(ctx.pick(700, 12000))])
+    run_bmv(ctx, [gen_bmv_case(s, q) for s in seeds(ctx.pick(300, 6000))])
+    run_nls(ctx, [gen_nls_case(s, q) for s in seeds(ctx.pick(650, 12000))], ctx.pick(700, 14000))
 
 
 def search(ctx: Ctx):
